@@ -98,12 +98,13 @@ theorem discard_only_if_unsat {s : Simp} (hs : SimpSound s) {o : Oracle} (ho : O
 theorem step_complete {I : Interp} {env : Env} {code : List Nat} {p : Evm.Params} {w : Evm.World} {s : Simp}
     {o : Oracle} {cfg : Cfg} {st : SState} {f : Evm.Frame} (hs : SimpSound s) (ho : OracleSound o) (hI : I.Std)
     (hR : R I env code p st f) (hl : f.stack.length ≤ 1024) (hmem : cfg.maxMem + 32 ≤ p.memLimit)
-    (hsat : Sat I st.path) {w' : Evm.World} {h : Evm.Halt} (hh : Halts p w f (w', h)) :
+    (hcode : ∀ b ∈ code, b < 256) (hsat : Sat I st.path) {w' : Evm.World} {h : Evm.Halt}
+    (hh : Halts p w f (w', h)) :
     (∃ st' ∈ (step s o cfg env code st).next, Sat I st'.path ∧
         ∃ f', R I env code p st' f' ∧ Halts p w f' (w', h)) ∨
     (∃ e ∈ (step s o cfg env code st).ends, EndCovers I h e) ∨
     (step s o cfg env code st).bounded ≠ [] :=
-  Lemmas.Sevm.step_complete hs ho hI hR hl hmem hsat hh
+  Lemmas.Sevm.step_complete hs ho hI hR hl hmem hcode hsat hh
 
 /-! ### the property -/
 
@@ -111,7 +112,7 @@ theorem step_complete {I : Interp} {env : Env} {code : List Nat} {p : Evm.Params
     evaluated under `I` is `h`) -/
 theorem complete {s : Simp} (hs : SimpSound s) {o : Oracle} (ho : OracleSound o) (cfg : Cfg) (env : Env)
     (code : List Nat) (fuel : Nat) (p : Evm.Params) (w : Evm.World) (hmem : cfg.maxMem + 32 ≤ p.memLimit)
-    (I : Interp) (hI : I.Std) (f0 : Evm.Frame)
+    (hcode : ∀ b ∈ code, b < 256) (I : Interp) (hI : I.Std) (f0 : Evm.Frame)
     (hR0 : R I env code p initState f0) (n : Nat) (w' : Evm.World) (h : Evm.Halt)
     (hex : Evm.exec p n w f0 = some (w', h)) (hne : h ≠ .stackOverflow) :
     (∃ e ∈ (run s o cfg env code fuel).ends, Sat I e.st.path ∧
@@ -120,7 +121,7 @@ theorem complete {s : Simp} (hs : SimpSound s) {o : Oracle} (ho : OracleSound o)
     (run s o cfg env code fuel).boundedLoops ≠ [] ∨
     (run s o cfg env code fuel).depthCut = true ∨
     (run s o cfg env code fuel).outOfFuel = true :=
-  explore_complete (cfg := cfg) hs ho hmem hI hne fuel 0 [initState] {}
+  explore_complete (cfg := cfg) hs ho hmem hcode hI hne fuel 0 [initState] {}
     ⟨initState, List.mem_singleton.2 rfl, Sat.nil I, f0, hR0, n, hex⟩
 
 /-! ### non-vacuity -/
@@ -137,7 +138,7 @@ example : ∃ e ∈ exRes.ends, Sat exI e.st.path ∧
     | some (w', _), this => exact ⟨w', by simp only [Option.map_some, Option.some.injEq] at this; rw [← this]⟩
   obtain ⟨w', hex⟩ := hex
   have hflags : exRes.boundedLoops = [] ∧ exRes.depthCut = false ∧ exRes.outOfFuel = false := by decide +kernel
-  rcases complete foldSimp_sound oracleSound_unknown {} exEnv exCode 100 exP exW C01.exMem exI exI_std exF0 exR 10 w'
+  rcases complete foldSimp_sound oracleSound_unknown {} exEnv exCode 100 exP exW C01.exMem (by decide) exI exI_std exF0 exR 10 w'
       .invalidOpcode hex (by decide) with h | h | h | h
   · exact h
   · exact absurd hflags.1 h
